@@ -14,7 +14,10 @@
      on the single-NaN format, every NaN result is the bit pattern 0x7FF8000000000000.
    - libm (std::pow) and libgcc's complex division / NaN recovery of complex multiplication
      are NOT modelled: such results are [ErrExn EXN_LIBM].
-   - a SIGFPE of the process is [ErrExn EXN_SIGFPE]. *)
+   - a SIGFPE of the process would be [ErrExn EXN_SIGFPE] (no longer produced: the code was
+     repaired, commit 5eef324).
+   The model follows the repaired code of commits 117ad73 (Le), 5eef324 (pow_negint),
+   10bfe6c (Infty with a NaN operand). *)
 From SE Require Export Num.NumDefs.
 From Coq Require Import QArith.
 From Flocq Require Import IEEE754.BinarySingleNaN IEEE754.Binary IEEE754.Bits Core.
@@ -257,6 +260,7 @@ Definition I_unit : number := NCplx 0 1 1 1.
 (* Infty::add *)
 Definition inf_add (d : Z) (other : number) : res number :=
   match other with
+  | NNaN => Ok NNaN
   | NInf d' => if negb (d' =? d) then Ok NNaN else if d =? 0 then Ok NNaN else Ok (NInf d)
   | _ => Ok (NInf d)
   end.
@@ -462,9 +466,8 @@ Definition int_pow_negint (b e : Z) : res number :=
   (* powint( *other.neg() ) *)
   if fits_ulong ne then
     let j := zpow b ne in
-    (* rational_class q(mp_sign(j), mp_abs(j)) canonicalises in its constructor:
-       division by zero inside GMP when j = 0 *)
-    if j =? 0 then ErrExn EXN_SIGFPE
+    (* 0 ** (-n) = 1/0 *)
+    if j =? 0 then Ok (NInf 0)
     else Ok (from_mpq (qcanon (Z.sgn j) (Z.abs j)))
   else ErrExn EXN_SYMENGINE.
 Definition int_powint (b e : Z) : res number :=
@@ -519,6 +522,7 @@ Definition inf_pow (d : Z) (other : number) : res number :=
       else if d <? 0 then Ok NNaN
       else (if 0 <? d' then Ok (NInf 0) else if d' <? 0 then Ok (NInt 0) else Ok NNaN)
   | NCplx _ _ _ _ => ErrExn EXN_NOTIMPL
+  | NNaN => Ok NNaN
   | _ => inf_pow_other d other
   end.
 
@@ -568,7 +572,7 @@ Definition num_rdiv (self other : number) : res number :=
 (* Infty::div *)
 Definition inf_div (d : Z) (other : number) : res number :=
   match other with
-  | NInf _ => Ok NNaN
+  | NInf _ | NNaN => Ok NNaN
   | _ => if num_is_positive other then Ok (NInf d)
          else if num_is_zero other then Ok (NInf 0)
          else Ok (NInf (d * -1))
@@ -743,7 +747,7 @@ Definition rel_le (a b : number) : res (option bool) :=
   else if is_a_NaN a || is_a_NaN b then ErrExn EXN_SYMENGINE
   else if num_eqb a (NInf 0) || num_eqb b (NInf 0) then ErrExn EXN_SYMENGINE
   else if num_eqb a b then Ok (Some true)
-  else bind (num_sub a b) (fun s => Ok (Some (num_is_negative s))).
+  else bind (num_sub a b) (fun s => Ok (Some (num_is_negative s || num_is_zero s))).
 
 Definition rel_gt (a b : number) : res (option bool) := rel_lt b a.
 Definition rel_ge (a b : number) : res (option bool) := rel_le b a.
@@ -800,10 +804,6 @@ Definition is_int0 (a : number) : bool := match a with NInt z => z =? 0 | _ => f
 Definition is_exact_cplx (a : number) : bool := match a with NCplx _ _ _ _ => true | _ => false end.
 Definition is_rat (a : number) : bool := match a with NRat _ _ => true | _ => false end.
 
-(* C06: Infty::add/sub/div/pow ignore a NaN operand (NaN::add does not) *)
-Definition guard_inf_nan (a b : number) : bool :=
-  (is_inf a && is_a_NaN b) || (is_a_NaN a && is_inf b).
-Definition guard_inf_then_nan (a b : number) : bool := is_inf a && is_a_NaN b.
 (* C06: RealDouble::mulreal(Integer 0) returns the exact 0 *)
 Definition guard_dbl_times_int0 (a b : number) : bool :=
   (is_dbl a && is_int0 b) || (is_int0 a && is_dbl b).
@@ -819,9 +819,6 @@ Definition guard_badd_zero_sum (a b : number) : bool :=
   match num_add a b with Ok s => num_is_zero s | _ => false end.
 (* C05: Complex::rdiv accepts only an Integer *)
 Definition guard_rat_div_cplx (a b : number) : bool := is_rat a && is_exact_cplx b.
-(* C05: Integer(0) ** negative *)
-Definition guard_zero_pow_neg (a b : number) : bool :=
-  is_int0 a && match b with NInt e => e <? 0 | _ => false end.
 
 (* exact value of a finite double *)
 Definition f64_to_Q (x : f64) : option Q :=
@@ -864,15 +861,6 @@ Definition ext_eqb (x y : ext) : bool :=
 Definition ext_leb (x y : ext) : bool := ext_ltb x y || ext_eqb x y.
 Definition is_real (a : number) : bool := match val a with Some _ => true | None => false end.
 
-(* C29: equal values of different kinds (Le/Ge answer false) *)
-Definition same_kind (a b : number) : bool :=
-  match a, b with
-  | NInt _, NInt _ | NRat _ _, NRat _ _ | NDbl _, NDbl _ | NInf _, NInf _ => true
-  | _, _ => false
-  end.
-Definition guard_equal_diffkind (a b : number) : bool :=
-  negb (same_kind a b) &&
-  match val a, val b with Some x, Some y => ext_eqb x y | _, _ => false end.
 (* C29: an exact operand is converted to double by truncation before the subtraction *)
 Definition conv_inexact (a : number) : bool :=
   match a with
@@ -890,6 +878,6 @@ Definition guard_dblinf_infty (a b : number) : bool :=
 
 (* names of the guards a case falls in, for the checks *)
 Definition guard_flags (a b : number) : list bool :=
-  [guard_inf_nan a b; guard_inf_then_nan a b; guard_dbl_times_int0 a b; guard_zoo_times_complex a b;
-   guard_badd_zero_float a b; guard_badd_zero_sum a b; guard_rat_div_cplx a b; guard_zero_pow_neg a b;
-   guard_equal_diffkind a b; guard_inexact_conv a b; guard_dblinf_infty a b].
+  [guard_dbl_times_int0 a b; guard_zoo_times_complex a b;
+   guard_badd_zero_float a b; guard_badd_zero_sum a b; guard_rat_div_cplx a b;
+   guard_inexact_conv a b; guard_dblinf_infty a b].
